@@ -49,19 +49,20 @@ const (
 
 // Op is one operation of a history.
 type Op struct {
-	Kind string `json:"op"`            // create | new | open | close | tick | add | get | getall | remove | key
-	U    int    `json:"u,omitempty"`   // create/new: user 1..3
-	I    int    `json:"i"`             // instance number (creation order)
-	Bad  bool   `json:"bad,omitempty"` // open: wrong passphrase
-	TTL  int    `json:"ttl,omitempty"` // open: expiry in units, 0 = default
-	Dt   int    `json:"dt,omitempty"`  // tick: units
-	Tok  int    `json:"tok"`           // token number in issue order; a number not issued (yet) is presented as a random string
-	C    int    `json:"c,omitempty"`   // content id: 100 * content type + number (below 100: Metadata number)
-	V    int    `json:"v,omitempty"`   // content value (unique per history)
-	CT   int    `json:"ct,omitempty"`  // getall / getallin: content type 1..6
-	Col  int    `json:"col,omitempty"` // addin / getallin: content id of the collection
-	KN   int    `json:"kn,omitempty"`  // import: 1000 + j (seeded key j); use: signing key (created key number or imported id)
-	M    string `json:"m,omitempty"`   // use: method
+	Kind   string `json:"op"`               // create | new | open | close | tick | add | get | getall | remove | key
+	U      int    `json:"u,omitempty"`      // create/new: user 1..3
+	Remote int    `json:"remote,omitempty"` // create: 0 = local KMS profile, n = remote-KMS profile on key server n
+	I      int    `json:"i"`                // instance number (creation order)
+	Bad    bool   `json:"bad,omitempty"`    // open: wrong passphrase
+	TTL    int    `json:"ttl,omitempty"`    // open: expiry in units, 0 = default
+	Dt     int    `json:"dt,omitempty"`     // tick: units
+	Tok    int    `json:"tok"`              // token number in issue order; a number not issued (yet) is presented as a random string
+	C      int    `json:"c,omitempty"`      // content id: 100 * content type + number (below 100: Metadata number)
+	V      int    `json:"v,omitempty"`      // content value (unique per history)
+	CT     int    `json:"ct,omitempty"`     // getall / getallin: content type 1..6
+	Col    int    `json:"col,omitempty"`    // addin / getallin: content id of the collection
+	KN     int    `json:"kn,omitempty"`     // import: 1000 + j (seeded key j); use: signing key (created key number or imported id)
+	M      string `json:"m,omitempty"`      // use: method
 }
 
 // Obs is what the implementation did for one op, plus the state of the shared storage afterwards.
@@ -117,23 +118,25 @@ type grant struct {
 }
 
 type world struct {
-	id     uint64
-	inner  keepProvider
-	rec    *hx.RecProvider
-	ctx    *mockprovider.Provider
-	insts  []*wallet.Wallet
-	iuser  []int
-	toks   []string
-	grants []*grant
-	now    int
-	kids   []string
-	kpubs  [][]byte // public key of created key k (nil for imported ones)
-	kowner []int
-	nkeys  int // keys made by CreateKeyPair (the model numbers those; imported keys carry their own id)
-	labels map[labelKey]int
-	nota   *notary
-	fresh  int
-	owners map[int]kms.KeyManager
+	id      uint64
+	inner   keepProvider
+	rec     *hx.RecProvider
+	ctx     *mockprovider.Provider
+	insts   []*wallet.Wallet
+	iuser   []int
+	toks    []string
+	grants  []*grant
+	now     int
+	kids    []string
+	kpubs   [][]byte // public key of created key k (nil for imported ones)
+	kowner  []int
+	nkeys   int // keys made by CreateKeyPair (the model numbers those; imported keys carry their own id)
+	labels  map[labelKey]int
+	nota    *notary
+	fresh   int
+	remote  map[int]int // user -> key server number (remote-KMS profiles)
+	servers map[int]*keyServer
+	owners  map[int]kms.KeyManager
 	// store manager entries (profile -> persisted at, ttl), for the ambiguity check of wallet.New
 	spers map[int]*grant
 	// provenance of content values
@@ -166,6 +169,10 @@ func newWorld() *world {
 func (w *world) cleanup() {
 	for _, x := range w.insts {
 		x.Close()
+	}
+
+	for _, s := range w.servers {
+		s.srv.Close()
 	}
 }
 
@@ -300,9 +307,13 @@ func (w *world) dump(o *Obs) {
 
 	for len(w.kowner) < len(w.kids) {
 		kid := w.kids[len(w.kowner)]
-		owner := 0
+		owner := w.remoteOwner(kid) // keys of remote-KMS profiles: the tenant store the key server put it in
 
-		for u := 1; u <= maxUsers; u++ {
+		for u := 1; u <= maxUsers && owner == 0; u++ {
+			if w.remote[u] > 0 {
+				continue
+			}
+
 			k := w.ownerKMS(u)
 			if k == nil {
 				continue
@@ -448,7 +459,23 @@ func (w *world) apply(op Op) (obs Obs, touched []hx.Call) {
 
 	switch op.Kind {
 	case "create":
-		err := wallet.CreateProfile(w.userName(op.U), w.ctx, wallet.WithPassphrase(pass(op.U)))
+		popt := wallet.WithPassphrase(pass(op.U))
+
+		if op.Remote > 0 {
+			srv := w.server(op.Remote)
+			srv.register(w.bearer(op.U))
+			popt = wallet.WithKeyServerURL(srv.srv.URL)
+		}
+
+		err := wallet.CreateProfile(w.userName(op.U), w.ctx, popt)
+		if err == nil && op.Remote > 0 {
+			if w.remote == nil {
+				w.remote = map[int]int{}
+			}
+
+			w.remote[op.U] = op.Remote
+		}
+
 		if err != nil {
 			return Obs{Out: "err", Err: err.Error()}, nil
 		}
@@ -471,6 +498,17 @@ func (w *world) apply(op Op) (obs Obs, touched []hx.Call) {
 		}
 
 		opts := []wallet.UnlockOptions{wallet.WithUnlockByPassphrase(p)}
+
+		if w.remote[w.iuser[op.I]] > 0 {
+			// a remote-KMS profile is unlocked with the authorization its key server knows it by
+			b := w.bearer(w.iuser[op.I])
+			if op.Bad {
+				b = "wrong authorization"
+			}
+
+			opts = []wallet.UnlockOptions{wallet.WithUnlockByAuthorizationToken(b)}
+		}
+
 		if op.TTL != 0 {
 			opts = append(opts, wallet.WithUnlockExpiry(time.Duration(op.TTL)*unit))
 		}
@@ -773,9 +811,28 @@ func (s *seqRun) do(op Op) bool {
 		settle = s.w.grants[op.Tok]
 	}
 
+	s.w.drainServers()
+
 	o, calls := s.w.apply(op)
 	if s.w.ambig {
 		return false
+	}
+
+	// remote-KMS profiles: whatever reached a key server during the call carried the authorization of the profile
+	// the call was made for, and a rejected call reached no key server at all
+	if reqs := s.w.drainServers(); len(reqs) > 0 && op.Kind != "create" && op.Kind != "new" && op.I < len(s.w.iuser) {
+		u := s.w.iuser[op.I]
+
+		for _, q := range reqs {
+			if q.Bearer != s.w.bearer(u) {
+				s.fail("request-carries-other-profiles-authorization:"+op.Kind,
+					fmt.Sprintf("op %d %+v: a key-server request (%s) made for user %d carried %q", s.n, op, q.Path, u, q.Bearer))
+			}
+		}
+
+		if isTokenOp(op.Kind) && !admitted(o.Out) {
+			s.fail("rejected-op-touched-key-server:"+op.Kind, fmt.Sprintf("op %d %+v rejected (%s) but sent %d request(s) to a key server", s.n, op, o.Out, len(reqs)))
+		}
 	}
 
 	if settle != nil && o.Out != "locked" {
@@ -927,11 +984,24 @@ type builder struct {
 	short  map[int]bool
 	nextV  int
 	nUsers int
+	// remote-KMS configuration (nil = all local)
+	remotes []int
 }
 
-func newBuilder(nUsers int) *builder {
-	b := &builder{latest: map[int]int{}, open: map[int]bool{}, short: map[int]bool{}, nextV: 100, nUsers: nUsers}
+func newBuilder(nUsers int) *builder { return newBuilderR(make([]int, nUsers)) }
+
+// newBuilderR: remotes[u-1] = 0 for a local-KMS profile, n for a remote-KMS profile on key server n
+func newBuilderR(remotes []int) *builder {
+	nUsers := len(remotes)
+	b := &builder{latest: map[int]int{}, open: map[int]bool{}, short: map[int]bool{}, nextV: 100, nUsers: nUsers,
+		remotes: remotes}
 	b.ops = setup(nUsers)
+
+	for i := range b.ops {
+		if b.ops[i].Kind == "create" {
+			b.ops[i].Remote = remotes[b.ops[i].U-1]
+		}
+	}
 
 	for u := 1; u <= nUsers; u++ {
 		b.iuser = append(b.iuser, u)
@@ -996,6 +1066,10 @@ func (b *builder) event(e string) {
 			b.short[u] = ttl != 0
 		}
 	case "openbad":
+		if len(b.remotes) >= u && b.remotes[u-1] > 0 {
+			break // a remote-KMS profile is not verified at unlock: there is no "wrong passphrase" to present
+		}
+
 		b.ops = append(b.ops, Op{Kind: "open", I: b.firstInst(u), Bad: true, TTL: shortTTL})
 	case "close":
 		b.ops = append(b.ops, Op{Kind: "close", I: b.firstInst(u)})
@@ -1376,6 +1450,30 @@ func main() {
 		jobs = append(jobs, job{"methods", buildFull(fork())})
 	}
 
+	// 2c. remote-KMS profiles (a multi-tenant key server on loopback): all on one key server URL, on two URLs, mixed
+	//     with local profiles; interleaved open / close / key operations, then every instance x every token
+	nRemote := 220
+	if args.Tier == "thorough" {
+		nRemote = 3000
+	}
+
+	rconf := [][]int{{1, 1}, {1, 1, 1}, {1, 2}, {0, 1}, {1, 0, 1}, {1, 1, 2}, {1, 1}}
+	revents := []string{"opens", "openl", "openl", "close", "closelast", "half", "full", "new", "own", "cross", "crosskey", "crosskey",
+		"add", "key", "key", "garb"}
+
+	for i := 0; i < nRemote; i++ {
+		r := fork()
+		conf := rconf[r.Intn(len(rconf))]
+		b := newBuilderR(conf)
+
+		for k := 2 + r.Intn(8); k > 0; k-- {
+			b.event(fmt.Sprintf("%s%d", revents[r.Intn(len(revents))], 1+r.Intn(len(conf))))
+		}
+
+		b.probes(r, []string{"key", "get", "add", "key"})
+		jobs = append(jobs, job{"remote-kms", b.ops})
+	}
+
 	// 3. seeded random histories over three profiles
 	nRandom := 700
 	if args.Tier == "thorough" {
@@ -1447,5 +1545,9 @@ func main() {
 		tr.Put(methodsAttack(i))
 		tr.Put(didcommAttack(i))
 		tr.Put(controllerAttack(i))
+	}
+
+	for i := 0; i < 2*nAttack; i++ {
+		tr.Put(remoteAttack(i, rng.Fork(uint64(7_000_000+i))))
 	}
 }
